@@ -53,6 +53,8 @@ def check(ops, dense=True):
                 ds=DrawSet(inc, exc); ref=set(inc)-set(exc or [])
             elif op[0]=='in':
                 if (op[1] in ds)!=(op[1] in ref): return f"op {k}: membership of {op[1]}"
+            elif op[0]=='peek':
+                for _x in ds: break          # a walk abandoned after its first element
             elif op[0]=='add': ds.add(op[1]); ref.add(op[1])
             elif op[0]=='discard': ds.discard(op[1]); ref.discard(op[1])
             elif op[0]=='remove':
@@ -63,7 +65,7 @@ def check(ops, dense=True):
             if not dense and not last: continue
             if list(ds)!=sorted(ref): return f"op {k}: contents {list(ds)} != {sorted(ref)}"
             if len(ds)!=len(ref) or ds.empty()!=(not ref): return f"op {k}: len/empty"
-            for x in list(ref)[:3]+([op[1]] if op[0] != 'init' else []):
+            for x in list(ref)[:3]+([op[1]] if op[0] not in ('init', 'peek') else []):
                 if (x in ds)!=(x in ref): return f"op {k}: membership of {x}"
             walk(ds._root)
             if ref:
@@ -90,14 +92,14 @@ def shrink(ops):
 if __name__=='__main__':
     seed, budget = int(sys.argv[1]), int(sys.argv[2])
     cands=[]
-    def tup(o): return tuple(o) if o[0]=='init' else (o[0], tuple(o[1]) if isinstance(o[1], list) else o[1])
-    if len(sys.argv)>3: cands=[[tup(o) for o in h if o[0] in('add','discard','remove','in','init')] for h in json.load(open(sys.argv[3]))]
+    def tup(o): return tuple(o) if o[0]=='init' else ('peek', 0) if o[0]=='iter' else (o[0], tuple(o[1]) if isinstance(o[1], list) else o[1])
+    if len(sys.argv)>3: cands=[[tup(o) for o in h if o[0] in('add','discard','remove','in','init') or (o[0]=='iter' and len(o)>1)] for h in json.load(open(sys.argv[3]))]
     rnd=random.Random(seed)
     for _ in range(budget):
         U=rnd.choice([4,8,16]); pair=rnd.random()<0.25
         def key():
             k=rnd.randrange(U); return (k//4,k%4) if pair else k
-        h=[(rnd.choice(['add','add','discard','remove','in']), key()) for _ in range(rnd.randint(5,60))]
+        h=[(rnd.choice(['add','add','discard','remove','in','add','discard','peek']), key()) for _ in range(rnd.randint(5,60))]
         if rnd.random()<0.3: h=[('init', [key() for _ in range(rnd.randint(0,10))], None if rnd.random()<0.5 else [key() for _ in range(3)])]+h
         cands.append(h)
     for ops in cands:
